@@ -5,12 +5,16 @@ use serde::{Deserialize, Serialize};
 
 use crate::ans;
 use crate::range;
+use crate::bits;
+use crate::backend;
 use crate::common::*;
 
 #[derive(Clone, Debug, Serialize, Deserialize, PartialEq)]
 pub enum Trace {
     Ans(ans::AnsTrace),
     Range(range::RangeTrace),
+    Bits(bits::BitsTrace),
+    Backend(backend::BackendTrace),
 }
 
 pub struct Meta {
@@ -25,7 +29,11 @@ pub fn worlds_for(prop: &str) -> &'static [&'static str] {
     match prop {
         "C01" | "C04" => &["ans"],
         "C02" | "C11" => &["range"],
-        "C06" | "C07" | "C08" | "C09" | "C12" | "C18" => &["ans", "range"],
+        "C06" | "C07" | "C12" => &["ans", "range"],
+        "C08" | "C18" => &["ans", "range", "bits"],
+        "C09" => &["ans", "range", "ans", "range", "bits"],
+        "C16" => &["bits"],
+        "C17" => &["backend"],
         _ => &[],
     }
 }
@@ -36,6 +44,8 @@ pub fn generate(prop: &str, seed: u64, index: u64, thorough: bool) -> Trace {
     match ws[(index % ws.len() as u64) as usize] {
         "ans" => Trace::Ans(ans::generate(seed, prop, thorough)),
         "range" => Trace::Range(range::generate(seed, prop, thorough)),
+        "bits" => Trace::Bits(bits::generate(seed, prop, thorough)),
+        "backend" => Trace::Backend(backend::generate(seed, prop, thorough)),
         w => panic!("harness: unknown world {}", w),
     }
 }
@@ -61,6 +71,26 @@ pub fn exec(t: &Trace, ctx: &mut Ctx) -> Result<(), Violation> {
                 Ok(())
             } else {
                 ans::exec(t, ctx, false).map(|_| ())
+            }
+        }
+        Trace::Backend(t) => backend::exec(t, ctx),
+        Trace::Bits(t) => {
+            if ctx.on("C08") {
+                let twin = {
+                    let mut st = Stats::default();
+                    let mut c2 = Ctx { prop: "none", stats: &mut st, op: 0 };
+                    bits::exec(t, &mut c2, true)
+                };
+                let out = bits::exec(t, ctx, false)?;
+                if let Ok(twin) = twin {
+                    if twin != out {
+                        return Err(Violation::new("C08", "bits-differs-from-uninspected-twin", t.ops.len(), format!("with inspections {:x?} without {:x?}", out, twin)));
+                    }
+                    ctx.stats.hit("c08-twin-compared");
+                }
+                Ok(())
+            } else {
+                bits::exec(t, ctx, false).map(|_| ())
             }
         }
         Trace::Range(t) => {
@@ -90,6 +120,8 @@ pub fn ops_len(t: &Trace) -> usize {
     match t {
         Trace::Ans(t) => t.ops.len(),
         Trace::Range(t) => t.ops.len(),
+        Trace::Bits(t) => t.ops.len(),
+        Trace::Backend(t) => t.ops.len(),
     }
 }
 
@@ -105,12 +137,52 @@ pub fn without_ops(t: &Trace, from: usize, to: usize) -> Trace {
             t.ops.drain(from..to.min(t.ops.len()));
             Trace::Range(t)
         }
+        Trace::Bits(t) => {
+            let mut t = t.clone();
+            t.ops.drain(from..to.min(t.ops.len()));
+            Trace::Bits(t)
+        }
+        Trace::Backend(t) => {
+            let mut t = t.clone();
+            t.ops.drain(from..to.min(t.ops.len()));
+            Trace::Backend(t)
+        }
     }
 }
 
 pub fn simplifications(t: &Trace) -> Vec<Trace> {
     let mut out = Vec::new();
     match t {
+        Trace::Bits(t) => {
+            if t.backend != bits::BBackend::Vec {
+                let mut c = t.clone();
+                c.backend = bits::BBackend::Vec;
+                out.push(Trace::Bits(c));
+            }
+            if !t.prefix.is_empty() {
+                let mut c = t.clone();
+                c.prefix.clear();
+                out.push(Trace::Bits(c));
+            }
+            if t.word != 8 {
+                let mut c = t.clone();
+                c.word = 8;
+                out.push(Trace::Bits(c));
+            }
+        }
+        Trace::Backend(t) => {
+            if t.init.len() > 1 {
+                let mut c = t.clone();
+                c.init.truncate(t.init.len() / 2);
+                c.pos = c.pos.min(c.init.len());
+                out.push(Trace::Backend(c));
+            }
+            if t.word != 8 {
+                let mut c = t.clone();
+                c.word = 8;
+                out.push(Trace::Backend(c));
+            }
+        }
         Trace::Range(t) => {
             if t.sink != range::Sink::Vec {
                 let mut c = t.clone();
